@@ -208,7 +208,75 @@ def run_history(ops):
         return run_nested_retrieval(ops)
     if ops and ops[0] == 'LONG':
         return run_long_run(ops)
+    if ops and ops[0] == 'OWN':
+        return run_results_owned(ops)
+    if ops and ops[0] == 'GENSYX':
+        return run_generator_after_sysex_start(ops)
     return _drive(_session(ops))
+
+
+def run_results_owned(case):
+    """['OWN', stream]: the messages a parser hands out belong to the caller.  They are changed (time stamped, an attribute
+    overwritten), and then the same bytes are parsed again, by the same parser and by a new one: the result is that of the
+    bytes, not of what the caller did to earlier results."""
+    import mido
+    _, stream = case
+
+    def _cm(m):
+        return msgs.canon_msg(m) + ' time=%r' % (m.time,)
+    want = [_cm(m) for m in mido.parse_all(list(stream))] if False else None
+    try:
+        a = mido.Parser()
+        a.feed(list(stream))
+        first = list(a)
+        want = [_cm(m) for m in first]
+        for m in first:
+            m.time = 4711
+            for name in ('note', 'value', 'program', 'pitch', 'pos', 'song', 'frame_value', 'control'):
+                if hasattr(m, name):
+                    setattr(m, name, 1)
+            if m.type == 'sysex':
+                m.data = (1, 2, 3)
+        a.feed(list(stream))
+        again = [_cm(m) for m in a]
+        b = mido.Parser()
+        for x in stream:
+            b.feed_byte(x)
+        other = [_cm(m) for m in b]
+        alls = [_cm(m) for m in mido.parse_all(bytes(stream))]
+        dec = [_cm(mido.Message.from_bytes(m.bytes())) for m in mido.parse_all(list(stream))]
+        dec0 = [_cm(m) for m in mido.parse_all(list(stream))]
+    except Exception as e:
+        return [], f'parsing the same bytes again after the caller changed the earlier results raised {type(e).__name__}: {e}'
+    for how, got in (('the same parser', again), ('a new parser', other), ('parse_all', alls), ('Message.from_bytes', dec)):
+        if got != (want if how != 'Message.from_bytes' else dec0) or got != want:
+            return [], (f'after the caller stamped and edited the messages parsed from {list(stream)[:24]}, parsing the same bytes '
+                        f'again with {how} gives {got[:6]} instead of {want[:6]}')
+    return [], None
+
+
+def run_generator_after_sysex_start(case):
+    """['GENSYX', head, chunk]: a message (a sysex) is opened by one call; the next chunk comes as a one-shot iterable (a
+    generator, iter(), map()): the result is that of the bytes fed as a list."""
+    import mido
+    _, head, chunk, how = case
+    want = [msgs.canon_msg(m) for m in mido.parse_all(list(head) + list(chunk))]
+    try:
+        p = mido.Parser()
+        p.feed(list(head))
+        if how == 'gen':
+            p.feed(x for x in chunk)
+        elif how == 'iter':
+            p.feed(iter(list(chunk)))
+        else:
+            p.feed(map(int, list(chunk)))
+        got = [msgs.canon_msg(m) for m in p]
+    except Exception as e:
+        return [], f'a chunk handed over as a one-shot iterable after {list(head)} raised {type(e).__name__}: {e}'
+    if got != want:
+        return [], (f'after feed({list(head)}), the chunk {list(chunk)[:24]} handed over as a one-shot iterable ({how}) gives {got[:6]}, '
+                    f'as a list {want[:6]}')
+    return [], None
 
 
 def run_pair(ops_a, ops_b, order):
@@ -432,6 +500,18 @@ def special_sessions(rng, n):
         # retrieval nested in an iteration
         stream = [b for _ in range(rng.randint(4, 8)) for b in msgs.encode_ref(*msgs.random_message(rng, max_sysex=2))]
         hs.append(['NEST', stream, rng.choice([1, 2])])
+        # results belong to the caller; a one-shot iterable after a message has been opened by an earlier call
+        own = [b for _ in range(rng.randint(2, 5)) for b in msgs.encode_ref(*msgs.random_message(rng, max_sysex=3))]
+        own += [rng.choice(list(parsing.DEFINED_RT) + [0xf6])]
+        hs.append(['OWN', own])
+        t3, d3 = msgs.random_message(rng, max_sysex=4, types=[x for x in msgs.TYPE_NAMES if x not in msgs.REALTIME and x != 'tune_request'])
+        e3 = msgs.encode_ref(t3, d3) if rng.random() < 0.4 else [0xf0] + [rng.randint(0, 127) for _ in range(rng.randint(0, 4))] + [0xf7]
+        c3 = rng.randrange(1, len(e3))
+        rest = e3[c3:]
+        if rng.random() < 0.5:
+            rest = rest[:1] + [rng.choice(parsing.DEFINED_RT)] + rest[1:]
+        rest = rest + msgs.encode_ref(*msgs.random_message(rng, max_sysex=2))
+        hs.append(['GENSYX', e3[:c3], rest, rng.choice(['gen', 'iter', 'map'])])
     for i in range(n):
         ops = []
         r = i % 4
@@ -603,15 +683,15 @@ def run(ck):
                 ck.oracle_fail({'ops': h}, fail)
             flat.append((h[1], lines[0]))
             flat.append((h[2], lines[1]))
-        elif h and h[0] in ('COPY', 'REENT', 'NEST', 'LONG'):
+        elif h and h[0] in ('COPY', 'REENT', 'NEST', 'LONG', 'OWN', 'GENSYX'):
             ck.note_case(repr(h), nontrivial=True)
-            ck.count({'COPY': 'parser_copied_mid_message', 'REENT': 'generator_feeding_the_same_parser', 'NEST': 'retrieval_nested_in_iteration', 'LONG': 'long_run_through_one_parser'}[h[0]])
+            ck.count({'COPY': 'parser_copied_mid_message', 'REENT': 'generator_feeding_the_same_parser', 'NEST': 'retrieval_nested_in_iteration', 'LONG': 'long_run_through_one_parser', 'OWN': 'results_belong_to_the_caller', 'GENSYX': 'one_shot_iterable_after_an_open_message'}[h[0]])
             if fail:
                 ck.oracle_fail({'ops': h}, fail)
         else:
             flat.append((h, lines))
     for h, (lines, fail) in zip(hs, res):
-        if h and h[0] in ('PAIR', 'COPY', 'REENT', 'NEST', 'LONG'):
+        if h and h[0] in ('PAIR', 'COPY', 'REENT', 'NEST', 'LONG', 'OWN', 'GENSYX'):
             continue
         feeds = sum(1 for o in h if o[0] in ('feed', 'feedbyte', 'pput'))
         retr = sum(1 for o in h if o[0] in ('get', 'iternext', 'ppoll', 'piterpoll', 'pending'))
@@ -644,7 +724,7 @@ def run(ck):
 
 def oracle(case):
     ops = case['ops']
-    if ops and ops[0] in ('COPY', 'REENT', 'NEST', 'LONG'):
+    if ops and ops[0] in ('COPY', 'REENT', 'NEST', 'LONG', 'OWN', 'GENSYX'):
         return run_history(ops)[1]
     if ops and ops[0] == 'PAIR':
         return run_pair([tuple(o) for o in ops[1]], [tuple(o) for o in ops[2]], ops[3])[1]
